@@ -573,6 +573,39 @@ func run(c *fw.Ctx) {
 			c.Count("loadfile_cases", 1)
 			c.End(true, "loadfile:"+content)
 		}
+		// a first line that starts with '#' is skipped whatever its length (also longer than the loader's read
+		// buffer); what follows is the chunk
+		for _, n := range []int{1, 100, 4093, 4094, 4095, 4096, 4097, 4098, 8191, 8192, 8193, 20000} {
+			for _, eol := range []string{"\n", "\r\n"} {
+				content := "#" + strings.Repeat("x", n-1) + eol + "return 7"
+				cs := Case{Kind: "loadfile-long-first-line", Bytes: []byte(fmt.Sprintf("# line of %d bytes, line end %q, then: return 7", n, eol))}
+				p := filepath.Join(c.Work, "long-first-line.lua")
+				os.WriteFile(p, []byte(content), 0o644)
+				c.Begin(cs)
+				L := lua.NewState(lua.Options{SkipOpenLibs: true})
+				var got lua.LValue = lua.LNil
+				o := gl.Protect(func() error {
+					fn, err := L.LoadFile(p)
+					if err != nil {
+						return err
+					}
+					L.Push(fn)
+					if err := L.PCall(0, 1, nil); err != nil {
+						return err
+					}
+					got = L.Get(-1)
+					return nil
+				})
+				L.Close()
+				if o.GoPanic != nil {
+					c.Violation("Go panic out of LoadFile: "+o.PanicStr, cs)
+				} else if o.Err != nil || got != lua.LNumber(7) {
+					c.Violation(fmt.Sprintf("a file whose first line is a %d-byte '#' line followed by `return 7` gave %v (error %v)", n, got, o.Err), cs)
+				}
+				c.Count("loadfile_long_first_line_cases", 1)
+				c.End(true, fmt.Sprintf("loadfile-long:%d:%q", n, eol))
+			}
+		}
 	}
 }
 
